@@ -9,6 +9,9 @@ CHECKS = {
  "C19": dict(engine=E1, technique="explicit-state BFS to a fixpoint over the real orderedmap.Map, every transition compared with a slice-of-pairs reference model",
    text="All reachable private states (order, records) of the real map over keys {a,b,c}x{1,2} (thorough {a..d}x{1,2,3}) under 24 (37) operations are enumerated to a fixpoint; every read-only API result is compared with the reference model in every state, so the verdict covers operation sequences of any length over the alphabet.",
    note="State identity uses the private fields through an overlay-injected export shim; values outside the alphabet and At() out of range are not covered; Equal() on empty maps is not judged (not an operation the statement lists).", ref="§6 C19"),
+ "C18": dict(engine=E1, technique="exhaustive enumeration of IR node values (reflection filler + grammar I) with copy/compare/alias analysis and single-location mutation of every reachable location of the copy",
+   text="For each of the 36 IR node types with a DeepCopy method: zero value, all-fields-set values (every declared field non-zero, found by reflection so new fields are covered automatically), one value per single field, five contents for untyped slots, plus grammar-I types/schemas/builders. Every value is copied by the real DeepCopy; equality is checked field by field incl. unexported fields; the reachable address sets of original and copy must be disjoint; every reachable location of the copy is written once and the original's snapshot must not change.",
+   note="Untyped slots that only ever hold immutable scalars are filled with scalars only; nil and empty collections are the same; a Schema always has a non-nil object map (ast.NewSchema). Values larger than the filler's recursion bound (2 quick / 3 thorough) are not covered.", ref="§6 C18"),
 }
 
 NOT_YET = "check not built yet in this session (planned, see DESIGN.md §6); not claimed until it runs clean on the unchanged tree"
